@@ -32,6 +32,7 @@ import (
 	"encoding/binary"
 	"encoding/hex"
 	"fmt"
+	"os"
 	"sync"
 	"sync/atomic"
 	"testing"
@@ -39,9 +40,10 @@ import (
 
 	"github.com/btcsuite/btcd/btcec/v2"
 	"github.com/btcsuite/btcd/btcutil/v2"
-	"github.com/btcsuite/btcd/wire"
+	"github.com/btcsuite/btcd/wire/v2"
 	sphinx "github.com/lightningnetwork/lightning-onion"
 	"github.com/lightningnetwork/lnd/channeldb"
+	"github.com/lightningnetwork/lnd/chanstate"
 	"github.com/lightningnetwork/lnd/contractcourt"
 	"github.com/lightningnetwork/lnd/graph/db/models"
 	"github.com/lightningnetwork/lnd/htlcswitch/hop"
@@ -118,33 +120,113 @@ func (r *vC08Rec) classify(m lnwire.Message) (string, int, uint64, uint64, strin
 	return kind, r.chans[cid], id, amt, hx
 }
 
-// wire records every message at the moment a node's mockServer dequeues it
-// (before the link processes it); drop decides whether it is discarded.
-func (r *vC08Rec) wire(node string, drop func(node string, ch int, kind string) bool) messageInterceptor {
+// wire is the interceptor of one node's mockServer.  It records every message
+// at the moment the node dequeues it, applies the seeded delay, drops it when
+// it is stale (sent over a connection that has since been torn down) or when
+// the channel is currently losing messages, and otherwise hands it to the
+// link itself (what mockServer.readHandler does) while holding the read side
+// of the fault gate, so that a link restart never interleaves with a dispatch.
+func (v *vC08Net) wire(node string, srv *mockServer, rg *vrng) messageInterceptor {
 	return func(m lnwire.Message) (bool, error) {
+		r := v.rec
 		kind, ch, id, amt, hx := r.classify(m)
 		if kind == "" {
 			return false, nil
 		}
-		d := drop != nil && drop(node, ch, kind)
-		r.add("w", node, ch, kind, id, amt, hx, d)
-		return d, nil
+		if v.delays && rg.intn(4) == 0 {
+			time.Sleep(time.Duration(rg.intn(6000)) * time.Microsecond)
+		}
+		for !v.gate.TryRLock() {
+			select {
+			case <-srv.quit:
+				return true, nil
+			case <-time.After(500 * time.Microsecond):
+			}
+		}
+		defer v.gate.RUnlock()
+
+		v.mu.Lock()
+		ep, tagged := v.tags[m]
+		delete(v.tags, m)
+		why := ""
+		switch {
+		case !tagged || ep != v.epoch[ch]:
+			why = "stale"
+		case v.dropping[ch]:
+			why = "lost"
+		default:
+			if v.armed != nil && v.armed.match(ch, kind) {
+				f := v.armed
+				v.armed = nil
+				if f.Drop {
+					v.dropping[f.Chan] = true
+					r.add("x", "dropping", f.Chan)
+					if f.Chan == ch {
+						why = "lost"
+					}
+				}
+				close(f.fire)
+			}
+		}
+		if why != "" {
+			v.dropped++
+		}
+		v.mu.Unlock()
+
+		r.add("w", node, ch, kind, id, amt, hx, why != "", why)
+		if why != "" {
+			return true, nil
+		}
+		var cid lnwire.ChannelID
+		switch msg := m.(type) {
+		case *lnwire.UpdateAddHTLC:
+			cid = msg.ChanID
+		case *lnwire.UpdateFulfillHTLC:
+			cid = msg.ChanID
+		case *lnwire.UpdateFailHTLC:
+			cid = msg.ChanID
+		case *lnwire.UpdateFailMalformedHTLC:
+			cid = msg.ChanID
+		case *lnwire.CommitSig:
+			cid = msg.ChanID
+		case *lnwire.RevokeAndAck:
+			cid = msg.ChanID
+		case *lnwire.ChannelReestablish:
+			cid = msg.ChanID
+		}
+		if link, err := srv.htlcSwitch.GetLink(cid); err == nil {
+			link.HandleChannelUpdate(m)
+		}
+		return true, nil
 	}
 }
 
-// vC08Peer wraps the Peer of one of Bob's links: messages Bob SENDS are
-// recorded synchronously in the sending link's goroutine, so their order
-// relative to that link's notifier / circuit-map events is exact.
+// vC08Peer wraps the Peer of a link.  Every message is tagged with the
+// connection epoch of the sending link, so that messages of a torn-down
+// connection still sitting in the peer's queue are not delivered to the
+// restarted link.  Messages Bob SENDS are recorded synchronously in the
+// sending link's goroutine, so their order relative to that link's notifier /
+// circuit-map events is exact.
 type vC08Peer struct {
 	lnpeer.Peer
-	r *vC08Rec
+	v     *vC08Net
+	ch    int
+	epoch uint64
+	bob   bool
 }
 
 func (p *vC08Peer) SendMessage(sync bool, msgs ...lnwire.Message) error {
+	p.v.mu.Lock()
 	for _, m := range msgs {
-		kind, ch, id, amt, hx := p.r.classify(m)
-		if kind != "" {
-			p.r.add("s", ch, kind, id, amt, hx)
+		p.v.tags[m] = p.epoch
+	}
+	p.v.mu.Unlock()
+	if p.bob {
+		for _, m := range msgs {
+			kind, ch, id, amt, hx := p.v.rec.classify(m)
+			if kind != "" {
+				p.v.rec.add("s", ch, kind, id, amt, hx)
+			}
 		}
 	}
 	return p.Peer.SendMessage(sync, msgs...)
@@ -278,11 +360,12 @@ func (c *vC08Circuits) DeleteCircuits(inKeys ...CircuitKey) error {
 
 // ---- ForwardPackets wrapper on Bob's links --------------------------------------
 
-func vC08WrapForward(r *vC08Rec, l *channelLink, name int) {
-	inner := l.cfg.ForwardPackets
-	l.cfg.ForwardPackets = func(q <-chan struct{}, replay bool,
-		pkts ...*htlcPacket) error {
+func vC08WrapForward(r *vC08Rec, lp **channelLink, name int,
+	inner func(<-chan struct{}, bool, ...*htlcPacket) error) func(<-chan struct{},
+	bool, ...*htlcPacket) error {
 
+	return func(q <-chan struct{}, replay bool, pkts ...*htlcPacket) error {
+		l := *lp
 		if len(pkts) > 0 {
 			var active map[uint64]bool
 			for _, p := range pkts {
@@ -318,6 +401,290 @@ func vC08WrapForward(r *vC08Rec, l *channelLink, name int) {
 	}
 }
 
+// ---- the network, built link by link so that every link is wrapped from birth ----
+
+type vC08Fault struct {
+	Kind  string `json:"kind"` // flap restart
+	Chan  int    `json:"chan"` // channel flapped (0 for restart = both)
+	Drop  bool   `json:"drop"` // lose all messages on Chan from the trigger until the restart
+	TKind string `json:"tkind"`
+	TChan int    `json:"tchan"`
+	Nth   int    `json:"nth"`
+	Wait  int    `json:"wait_ms"`
+	Fired string `json:"fired"` // trigger timer none
+	seen  int
+	fire  chan struct{}
+}
+
+func (f *vC08Fault) match(ch int, kind string) bool {
+	if (f.TChan != 0 && f.TChan != ch) || f.TKind != kind {
+		return false
+	}
+	f.seen++
+	return f.seen >= f.Nth
+}
+
+type vC08Net struct {
+	t       *testing.T
+	rec     *vC08Rec
+	n       *threeHopNetwork
+	restore func() (*clusterChannels, error)
+	opt     serverOption
+	rg      *vrng
+	nsrv    uint64
+	bobDB   *channeldb.DB
+
+	// gate: dispatching a message to a link holds the read side, a fault
+	// holds the write side for its whole duration.
+	gate sync.RWMutex
+
+	mu       sync.Mutex
+	tags     map[lnwire.Message]uint64
+	epoch    [3]uint64
+	dropping [3]bool
+	armed    *vC08Fault
+	dropped  int
+	delays   bool
+	failures int32
+}
+
+// mkLink is hopNetwork.createChannelLink with the Peer and ForwardPackets
+// wrappers installed before the link starts (AddLink starts its goroutines).
+func (v *vC08Net) mkLink(server, peer *mockServer, channel *lnwallet.LightningChannel,
+	decoder *mockIteratorDecoder, bobName int) (*channelLink, error) {
+
+	const (
+		fwdPkgTimeout       = 15 * time.Second
+		minFeeUpdateTimeout = 30 * time.Minute
+		maxFeeUpdateTimeout = 40 * time.Minute
+	)
+	h := &v.n.hopNetwork
+	ch := v.rec.chans[lnwire.NewChanIDFromOutPoint(channel.ChannelPoint())]
+	v.mu.Lock()
+	ep := v.epoch[ch]
+	v.mu.Unlock()
+
+	notifyUpdateChan := make(chan *contractcourt.ContractUpdate)
+	doneChan := make(chan struct{})
+	notifyContractUpdate := func(u *contractcourt.ContractUpdate) error {
+		select {
+		case notifyUpdateChan <- u:
+		case <-doneChan:
+		}
+		return nil
+	}
+	sw := server.htlcSwitch
+	var lp *channelLink
+	forwardPackets := func(linkQuit <-chan struct{}, _ bool,
+		packets ...*htlcPacket) error {
+
+		return sw.ForwardPackets(linkQuit, packets...)
+	}
+	if bobName != 0 {
+		forwardPackets = vC08WrapForward(v.rec, &lp, bobName, forwardPackets)
+	}
+	//nolint:ll
+	link := NewChannelLink(
+		ChannelLinkConfig{
+			BestHeight:         sw.BestHeight,
+			FwrdingPolicy:      h.globalPolicy,
+			Peer:               &vC08Peer{Peer: peer, v: v, ch: ch, epoch: ep, bob: bobName != 0},
+			Circuits:           sw.CircuitModifier(),
+			ForwardPackets:     forwardPackets,
+			DecodeHopIterators: decoder.DecodeHopIterators,
+			ExtractErrorEncrypter: func(*btcec.PublicKey) (
+				hop.ErrorEncrypter, lnwire.FailCode) {
+
+				// One obfuscator per HTLC (the fixture shares one
+				// between all links, which is a data race in the
+				// fixture whenever two links fail HTLCs at once).
+				return NewMockObfuscator(), lnwire.CodeNone
+			},
+			FetchLastChannelUpdate: mockGetChanUpdateMessage,
+			Registry:               server.registry,
+			FeeEstimator:           h.feeEstimator,
+			PreimageCache:          server.pCache,
+			UpdateContractSignals: func(*contractcourt.ContractSignals) error {
+				return nil
+			},
+			NotifyContractUpdate: notifyContractUpdate,
+			ChainEvents:          &contractcourt.ChainEventSubscription{},
+			SyncStates:           true,
+			BatchSize:            10,
+			BatchTicker:          ticker.NewForce(testBatchTimeout),
+			FwdPkgGCTicker:       ticker.NewForce(fwdPkgTimeout),
+			PendingCommitTicker:  ticker.New(2 * time.Minute),
+			MinUpdateTimeout:     minFeeUpdateTimeout,
+			MaxUpdateTimeout:     maxFeeUpdateTimeout,
+			OnChannelFailure: func(lnwire.ChannelID, lnwire.ShortChannelID,
+				LinkFailureError) {
+
+				atomic.AddInt32(&v.failures, 1)
+			},
+			OutgoingCltvRejectDelta:    3,
+			MaxOutgoingCltvExpiry:      DefaultMaxOutgoingCltvExpiry,
+			MaxFeeAllocation:           DefaultMaxLinkFeeAllocation,
+			MaxAnchorsCommitFeeRate:    chainfee.SatPerKVByte(10 * 1000).FeePerKWeight(),
+			NotifyActiveLink:           func(wire.OutPoint) {},
+			NotifyActiveChannel:        func(wire.OutPoint) {},
+			NotifyInactiveChannel:      func(wire.OutPoint) {},
+			NotifyInactiveLinkEvent:    func(wire.OutPoint) {},
+			NotifyChannelUpdate:        func(*chanstate.OpenChannel) {},
+			HtlcNotifier:               sw.cfg.HtlcNotifier,
+			GetAliases:                 func(lnwire.ShortChannelID) []lnwire.ShortChannelID { return nil },
+			ShouldFwdExpAccountability: func() bool { return true },
+		},
+		channel,
+	)
+	lp = link.(*channelLink)
+	go func() {
+		for {
+			select {
+			case <-notifyUpdateChan:
+			case <-lp.cg.Done():
+				close(doneChan)
+				return
+			}
+		}
+	}()
+	if err := sw.AddLink(link); err != nil {
+		return nil, fmt.Errorf("unable to add channel link: %w", err)
+	}
+	return lp, nil
+}
+
+func (v *vC08Net) newServer(name string, db *channeldb.DB) *mockServer {
+	s, err := newMockServer(v.t, name, testStartingHeight, db, v.n.defaultDelta)
+	if err != nil {
+		v.t.Fatalf("unable to create %s server: %v", name, err)
+	}
+	return s
+}
+
+func (v *vC08Net) intersect(node string, s *mockServer) {
+	v.nsrv++
+	s.intersect(v.wire(node, s, v.rg.fork(7000+v.nsrv)))
+}
+
+// vC08NewNet is newThreeHopNetwork built with mkLink.
+func vC08NewNet(t *testing.T, rec *vC08Rec, rg *vrng, ch *clusterChannels,
+	restore func() (*clusterChannels, error), opt serverOption) *vC08Net {
+
+	v := &vC08Net{t: t, rec: rec, rg: rg, restore: restore, opt: opt,
+		tags: map[lnwire.Message]uint64{}}
+	v.n = &threeHopNetwork{hopNetwork: *newHopNetwork()}
+	n := v.n
+	n.aliceServer = v.newServer("alice", testChannelStateDB(t, ch.aliceToBob).GetParentDB())
+	v.bobDB = testChannelStateDB(t, ch.bobToAlice).GetParentDB()
+	n.bobServer = v.newServer("bob", v.bobDB)
+	n.carolServer = v.newServer("carol", testChannelStateDB(t, ch.carolToBob).GetParentDB())
+	opt(n.aliceServer, n.bobServer, n.carolServer)
+	v.intersect("a", n.aliceServer)
+	v.intersect("b", n.bobServer)
+	v.intersect("c", n.carolServer)
+	if err := v.links(ch, true, true); err != nil {
+		t.Fatal(err)
+	}
+	return v
+}
+
+// links (re)creates both ends of channel 1 and/or channel 2 over the given
+// channel states, with fresh onion decoders (the mock decoder caches stateful
+// hop iterators per forwarding package, which cannot be replayed).
+func (v *vC08Net) links(ch *clusterChannels, one, two bool) error {
+	n := v.n
+	var err error
+	if one {
+		n.aliceOnionDecoder = newMockIteratorDecoder()
+		n.aliceChannelLink, err = v.mkLink(n.aliceServer, n.bobServer,
+			ch.aliceToBob, n.aliceOnionDecoder, 0)
+		if err != nil {
+			return err
+		}
+		n.firstBobChannelLink, err = v.mkLink(n.bobServer, n.aliceServer,
+			ch.bobToAlice, newMockIteratorDecoder(), 1)
+		if err != nil {
+			return err
+		}
+	}
+	if two {
+		n.secondBobChannelLink, err = v.mkLink(n.bobServer, n.carolServer,
+			ch.bobToCarol, newMockIteratorDecoder(), 2)
+		if err != nil {
+			return err
+		}
+		n.carolOnionDecoder = newMockIteratorDecoder()
+		n.carolChannelLink, err = v.mkLink(n.carolServer, n.bobServer,
+			ch.carolToBob, n.carolOnionDecoder, 0)
+		if err != nil {
+			return err
+		}
+	}
+	return nil
+}
+
+// flap tears down both ends of channel ch (a peer disconnect), reloads the
+// channel states from disk and restarts both links, which then re-establish.
+// Switches, circuit maps and mailboxes survive.
+func (v *vC08Net) flap(ch int) error {
+	v.gate.Lock()
+	defer v.gate.Unlock()
+	n := v.n
+	if ch == 1 {
+		n.bobServer.htlcSwitch.RemoveLink(n.firstBobChannelLink.ChanID())
+		v.rec.add("x", "linkrestart", 1)
+		n.aliceServer.htlcSwitch.RemoveLink(n.aliceChannelLink.ChanID())
+	} else {
+		n.bobServer.htlcSwitch.RemoveLink(n.secondBobChannelLink.ChanID())
+		v.rec.add("x", "linkrestart", 2)
+		n.carolServer.htlcSwitch.RemoveLink(n.carolChannelLink.ChanID())
+	}
+	v.mu.Lock()
+	v.epoch[ch]++
+	v.dropping[ch] = false
+	v.mu.Unlock()
+	chans, err := v.restore()
+	if err != nil {
+		return err
+	}
+	return v.links(chans, ch == 1, ch == 2)
+}
+
+// restartBob stops Bob's switch with both of its links (and the peers' ends
+// of both channels), then brings up a NEW switch on the same database:
+// circuit map reloaded from disk, forwarding packages re-forwarded, all four
+// links restarted over the reloaded channel states.  The preimage cache is
+// persistent in lnd (witness beacon), so the mock cache object is kept.
+func (v *vC08Net) restartBob() error {
+	v.gate.Lock()
+	defer v.gate.Unlock()
+	n := v.n
+	old := n.bobServer
+	_ = old.Stop() // message loop, then the switch with both of its links
+	v.rec.add("x", "restart")
+	n.aliceServer.htlcSwitch.RemoveLink(n.aliceChannelLink.ChanID())
+	n.carolServer.htlcSwitch.RemoveLink(n.carolChannelLink.ChanID())
+	v.mu.Lock()
+	v.epoch[1]++
+	v.epoch[2]++
+	v.dropping[1], v.dropping[2] = false, false
+	v.mu.Unlock()
+
+	nb := v.newServer("bob", v.bobDB)
+	nb.pCache = old.pCache
+	v.opt(nil, nb, nil)
+	v.intersect("b", nb)
+	n.bobServer = nb
+	if err := nb.Start(); err != nil {
+		return err
+	}
+	chans, err := v.restore()
+	if err != nil {
+		return err
+	}
+	return v.links(chans, true, true)
+}
+
 // ---- payments ---------------------------------------------------------------------
 
 type vC08Pay struct {
@@ -348,17 +715,19 @@ type vC08End struct {
 }
 
 type vC08Case struct {
-	Case      int        `json:"case"`
-	Fault     string     `json:"fault"`
-	Pays      []*vC08Pay `json:"pays"`
-	Init      []vC08End  `json:"init"`
-	End       []vC08End  `json:"end"`
-	Events    [][]any    `json:"events"`
-	Quiescent bool       `json:"quiescent"`
-	Why       string     `json:"why"`
-	Circuits  [][]int    `json:"circuits"` // per node [pending, open]
-	Dropped   int        `json:"dropped"`
-	WallMs    int64      `json:"wall_ms"`
+	Case         int          `json:"case"`
+	Fault        string       `json:"fault"`
+	Pays         []*vC08Pay   `json:"pays"`
+	Init         []vC08End    `json:"init"`
+	End          []vC08End    `json:"end"`
+	Events       [][]any      `json:"events"`
+	Quiescent    bool         `json:"quiescent"`
+	Why          string       `json:"why"`
+	Circuits     [][]int      `json:"circuits"` // per node [pending, open]
+	Dropped      int          `json:"dropped"`
+	Faults       []*vC08Fault `json:"faults"`
+	LinkFailures int          `json:"link_failures"`
+	WallMs       int64        `json:"wall_ms"`
 }
 
 var vC08Amounts = []uint64{
@@ -405,7 +774,8 @@ func vC08Ends(n *threeHopNetwork, r *vC08Rec) []vC08End {
 
 // vC08Launch prepares one payment (invoice at the receiver as the kind demands)
 // and returns a function that sends it and waits for the result.
-func vC08Launch(n *threeHopNetwork, p *vC08Pay, rg *vrng) (func(), error) {
+func vC08Launch(v *vC08Net, p *vC08Pay, rg *vrng) (func(), error) {
+	n := v.n
 	var (
 		sender, receiver *mockServer
 		path             []*channelLink
@@ -572,11 +942,105 @@ func vC08Quiet(n *threeHopNetwork, r *vC08Rec) (bool, string) {
 	return false, why
 }
 
+// vC08Plan chooses the faults of a batch.  mode cycles through all fault
+// kinds so that any six consecutive batches cover every kind.
+func vC08Plan(rg *vrng, idx int) (string, bool, []*vC08Fault) {
+	modes := []string{"flap", "dropflap", "restart", "droprestart", "flap2", "delay"}
+	mode := modes[(idx+int(vSeed()))%len(modes)]
+	if vEnvInt("VERIF_C08_NOFAULT", 0) != 0 {
+		return "none", false, nil
+	}
+	if m := os.Getenv("VERIF_C08_MODE"); m != "" {
+		mode = m
+	}
+	tk := []string{"add", "add", "sig", "sig", "sig", "rev", "rev", "ful", "ful", "fail"}
+	mk := func(kind string, drop bool) *vC08Fault {
+		f := &vC08Fault{Kind: kind, Drop: drop, Chan: 1 + rg.intn(2),
+			TKind: tk[rg.intn(len(tk))], Nth: 1 + rg.intn(6),
+			Wait: rg.intn(4) * rg.intn(15), fire: make(chan struct{})}
+		f.TChan = f.Chan
+		if kind == "restart" && !drop {
+			f.Chan = 0
+			if rg.bool() {
+				f.TChan = 0
+			}
+		}
+		return f
+	}
+	delays := rg.intn(3) != 0
+	switch mode {
+	case "flap":
+		return mode, delays, []*vC08Fault{mk("flap", false)}
+	case "dropflap":
+		return mode, delays, []*vC08Fault{mk("flap", true)}
+	case "restart":
+		return mode, delays, []*vC08Fault{mk("restart", false)}
+	case "droprestart":
+		return mode, delays, []*vC08Fault{mk("restart", true)}
+	case "flap2":
+		fs := []*vC08Fault{mk("flap", rg.bool()), mk("flap", rg.bool())}
+		if rg.intn(3) == 0 {
+			fs = append(fs, mk("restart", false))
+		}
+		return mode, delays, fs
+	}
+	return "delay", true, nil
+}
+
+// controller injects the planned faults one after the other: each is armed,
+// fires when its trigger message is dequeued somewhere (or after a fallback
+// time), and is complete before the next one is armed.
+func (v *vC08Net) controller(plan []*vC08Fault, stop <-chan struct{}, done chan<- error) {
+	for _, f := range plan {
+		v.mu.Lock()
+		v.armed = f
+		v.mu.Unlock()
+		fallback := time.After(time.Duration(400+v.rg.intn(600)) * time.Millisecond)
+		select {
+		case <-f.fire:
+			f.Fired = "trigger"
+		case <-fallback:
+			f.Fired = "timer"
+		case <-stop:
+			f.Fired = "none"
+		}
+		v.mu.Lock()
+		if v.armed == f {
+			v.armed = nil
+		} else if f.Fired != "trigger" {
+			// fired concurrently with the timer / stop
+			f.Fired = "trigger"
+		}
+		v.mu.Unlock()
+		if f.Fired == "none" {
+			break
+		}
+		if f.Fired == "timer" && f.Drop {
+			v.mu.Lock()
+			v.dropping[f.Chan] = true
+			v.mu.Unlock()
+			v.rec.add("x", "dropping", f.Chan)
+		}
+		time.Sleep(time.Duration(f.Wait) * time.Millisecond)
+		var err error
+		if f.Kind == "flap" {
+			err = v.flap(f.Chan)
+		} else {
+			err = v.restartBob()
+		}
+		if err != nil {
+			done <- err
+			return
+		}
+	}
+	done <- nil
+}
+
 func vC08Batch(t *testing.T, rg *vrng, idx int) *vC08Case {
 	start := time.Now()
-	c := &vC08Case{Case: idx, Fault: "none"}
+	c := &vC08Case{Case: idx}
 
-	channels, _, err := createClusterChannels(
+	channels, restore, err := createClusterChannels(
 		t, btcutil.Amount(3000000), btcutil.Amount(2000000),
 	)
 	if err != nil {
@@ -597,32 +1061,27 @@ func vC08Batch(t *testing.T, rg *vrng, idx int) *vC08Case {
 	rec.chans[lnwire.NewChanIDFromOutPoint(channels.bobToCarol.ChannelPoint())] = 2
 	rec.scids[channels.bobToAlice.ShortChanID()] = 1
 	rec.scids[channels.bobToCarol.ShortChanID()] = 2
-	n := newThreeHopNetwork(t, channels.aliceToBob, channels.bobToAlice,
-		channels.bobToCarol, channels.carolToBob, testStartingHeight,
-		circuitsOpt)
-	n.aliceServer.intersect(rec.wire("a", nil))
-	n.bobServer.intersect(rec.wire("b", nil))
-	n.carolServer.intersect(rec.wire("c", nil))
+	var plan []*vC08Fault
+	var delays bool
+	c.Fault, delays, plan = vC08Plan(rg.fork(500), idx)
+	v := vC08NewNet(t, rec, rg.fork(501), channels, restore, circuitsOpt)
+	v.delays = delays
+	n := v.n
 	if err := n.start(); err != nil {
 		t.Fatalf("start: %v", err)
 	}
-	defer n.stop()
+	defer func() { v.n.stop() }()
 	if rec.chans[n.aliceChannelLink.ChanID()] != 1 || rec.chans[n.carolChannelLink.ChanID()] != 2 ||
 		rec.scids[n.firstBobChannelLink.ShortChanID()] != 1 ||
 		rec.scids[n.secondBobChannelLink.ShortChanID()] != 2 {
 
 		t.Fatalf("channel id maps inconsistent")
 	}
-	// AddLink already started the link goroutines (they read cfg.Peer while
-	// re-establishing), so Bob's links are wrapped only now: n.start() waited
-	// until every link is eligible, i.e. idle in its main loop, and every
-	// later read of these fields is ordered after a message we cause.
-	n.firstBobChannelLink.cfg.Peer = &vC08Peer{Peer: n.firstBobChannelLink.cfg.Peer, r: rec}
-	n.secondBobChannelLink.cfg.Peer = &vC08Peer{Peer: n.secondBobChannelLink.cfg.Peer, r: rec}
-	vC08WrapForward(rec, n.firstBobChannelLink, 1)
-	vC08WrapForward(rec, n.secondBobChannelLink, 2)
-
 	c.Init = vC08Ends(n, rec)
+
+	stop := make(chan struct{})
+	done := make(chan error, 1)
+	go v.controller(plan, stop, done)
 
 	np := 3 + rg.intn(8)
 	if vTier() == "thorough" {
@@ -646,7 +1105,7 @@ func vC08Batch(t *testing.T, rg *vrng, idx int) *vC08Case {
 			p.OutChan = 99
 		}
 		p.Delay = rg.intn(4) * rg.intn(60)
-		run, err := vC08Launch(n, p, rg.fork(uint64(1000+i)))
+		run, err := vC08Launch(v, p, rg.fork(uint64(1000+i)))
 		if err != nil {
 			t.Fatalf("prepare payment: %v", err)
 		}
@@ -658,6 +1117,11 @@ func vC08Batch(t *testing.T, rg *vrng, idx int) *vC08Case {
 		}()
 	}
 	wg.Wait()
+	close(stop)
+	if err := <-done; err != nil {
+		t.Fatalf("fault injection failed: %v", err)
+	}
+	c.Faults = plan
 	c.Quiescent, c.Why = vC08Quiet(n, rec)
 	c.End = vC08Ends(n, rec)
 	for _, s := range []*mockServer{n.aliceServer, n.bobServer, n.carolServer} {
@@ -668,6 +1132,10 @@ func vC08Batch(t *testing.T, rg *vrng, idx int) *vC08Case {
 	rec.mu.Lock()
 	c.Events = append([][]any(nil), rec.ev...)
 	rec.mu.Unlock()
+	v.mu.Lock()
+	c.Dropped = v.dropped
+	v.mu.Unlock()
+	c.LinkFailures = int(atomic.LoadInt32(&v.failures))
 	c.WallMs = time.Since(start).Milliseconds()
 	return c
 }
